@@ -37,6 +37,8 @@ def check(c: Check):
     clause_d(c)
     clause_e(c)
     clause_f(c)
+    from .common import sweep_records
+    sweep_records(c, 'C07-rec', ['exactly_lib.section_document', 'exactly_lib.util.line_source'], floor=8)
 
 
 def _phase_of(c: Check, m, f, node) -> Optional[str]:
